@@ -40,6 +40,11 @@ CLAIMED = {
    text='Theorems C10_matcher_spec / C10_frame_* hold for all packages, selectors and regex oracles; the model is tied to the code by the step correspondence (real processor vs compiled model on generated packages) and the frame property is re-checked on the real output of every selector-taking processor.',
    note='re is an oracle parameter (table per case); processors not in Layer A (set_type, validate, sort_rows, printer, parallelize, add_computed_field, find_replace, update_schema, load) are covered by the frame oracle on the real code only',
    ref='6/C10'),
+ 'C11': dict(
+   technique='Lean 4 proof (each of the 12 incremental aggregators = its definition; the index holds per key the fold over exactly the rows rendering it; join output = relational specification per mode; one row per key for full-outer / deduplication) + join correspondence + relational-spec oracle',
+   text='C11_<agg> (12 theorems), C11_index_groups, C11_join_spec, C11_half_outer_keeps_all, C11_inner_subset and C11_rows_per_key hold for all tables, key specifications and field lists with distinct target names. Real joins over generated tables (duplicate / missing / null keys, field-list / format-string / row-number keys, all modes, all aggregators, source_delete, >10240 keys) are compared with the compiled model and with an independent Python statement of the relational join; all aggregators are also enumerated over all short value lists.',
+   note='kvfile (last write wins, key order) is a parameter; avg/median quotients are compared as Python computes them from the same integers; numeric aggregates are generated over integers; unmatched / deduplicated rows are compared as multisets (their order is the key order of the key/value file)',
+   ref='6/C11'),
  'C12': dict(
    technique='Lean 4 proof (string order is a strict total order; fixed-width hex is an order embedding; flipped IEEE bit pattern orders like the value; key+separator+row-number compares as (key, row number); output is a sorted, stable permutation; reverse = exact reverse) + sortkey/sort correspondence + stable-sort oracle',
    text='C12_suffix_lex, C12_flip_monotone, C12_num_key_order, C12_sorted_stable, C12_perm, C12_reverse_exact hold for all keys over code points above the separator, all finite doubles and all tables below 16^8 rows. The real rendered keys and the real output order are compared with the model (mergeSort of the real keys), the numeric rendering with renderNum on the bit pattern, and the real output with an independent stable sort by the specification order, incl. tables above the 10240-entry cache.',
